@@ -258,6 +258,7 @@ def build_rtlib(ctx, tree, logfile):
     return lib
 
 
+DROPPED = ("compile_failed", "engines_disagree", "native_timeout", "vm_timeout")
 SAN_RE = re.compile(r"(AddressSanitizer|LeakSanitizer|UndefinedBehaviorSanitizer|runtime error:|SUMMARY: \w*Sanitizer)")
 
 
@@ -274,7 +275,11 @@ def run_program(ctx, tree, src, rtlib, log_cc=None):
     if log_cc:
         env["NANO_CC_LOG"] = log_cc
     res = dict(name=name, src=src, dir=d)
-    c = sh([os.path.join(tree, "bin", "nanoc_c"), name + ".nano", "-o", name], cwd=d, env=env, timeout=600, check=False)
+    try:
+        c = sh([os.path.join(tree, "bin", "nanoc_c"), name + ".nano", "-o", name], cwd=d, env=env, timeout=600, check=False)
+    except subprocess.TimeoutExpired:
+        res.update(status="compile_failed", detail="nanoc_c did not finish within 600 s")
+        return res
     if c.returncode != 0:
         res.update(status="compile_failed", detail=(c.stdout[-600:] + c.stderr[-1200:]))
         return res
@@ -285,7 +290,13 @@ def run_program(ctx, tree, src, rtlib, log_cc=None):
         res.update(status="native_timeout", detail="")
         return res
     res["native_s"] = round(time.time() - t, 2)
-    v = sh([os.path.join(tree, "bin", "nano_virt"), "--run", name + ".nano"], cwd=d, env=ctx.env(), timeout=300, check=False)
+    try:
+        v = sh([os.path.join(tree, "bin", "nano_virt"), "--run", name + ".nano"], cwd=d, env=ctx.env(), timeout=120, check=False)
+    except subprocess.TimeoutExpired:
+        res.update(status="vm_timeout", detail="nano_virt --run did not finish within 120 s", native_out=r.stdout, stderr=r.stderr, native_rc=r.returncode)
+        if SAN_RE.search(r.stderr):
+            res["status"] = "sanitizer"
+        return res
     res.update(native_rc=r.returncode, vm_rc=v.returncode, native_out=r.stdout, vm_out=v.stdout, stderr=r.stderr)
     if SAN_RE.search(r.stderr):
         only_overflow = all(("signed integer overflow" in l) for l in r.stderr.splitlines() if "runtime error:" in l) \
@@ -321,7 +332,7 @@ def generated_code_half(ctx, cov, assumptions):
     clean = by.get("clean", [])
     cov.update(programs=len(progs), programs_clean=len(clean),
                programs_dropped=[dict(name=r["name"], why=r["status"], detail=(r.get("detail") or "")[:300])
-                                 for r in results if r["status"] in ("compile_failed", "engines_disagree", "native_timeout")],
+                                 for r in results if r["status"] in DROPPED],
                programs_overflow_only=[r["name"] for r in by.get("overflow_report", [])],
                program_sample=dict(name=clean[0]["name"], stdout=clean[0]["native_out"][:300]) if clean else None,
                rtlib=bool(rtlib))
@@ -329,7 +340,7 @@ def generated_code_half(ctx, cov, assumptions):
         raise InfraError("fewer than half of the C20 corpus ran to completion on both engines: %s" %
                          [(r["name"], r["status"]) for r in results if r["status"] not in ("clean", "sanitizer")][:10])
     for r in results:
-        if r["status"] in ("compile_failed", "engines_disagree", "native_timeout"):
+        if r["status"] in DROPPED:
             log("C20 corpus: dropped %s (%s)" % (r["name"], r["status"]))
 
 
